@@ -127,21 +127,24 @@ Definition msgs_cost (l : list mmsg) : N := fold_right (fun m acc => msg_cost m 
 (* Group.feedRtpPacket on one packet body (rtprtcp.IsAvcBoundary / IsHevcBoundary: the C13 models, panic sites
    renamed): only sessions in stage ReadPlay that still wait look at the packet; the boundary is computed once,
    and only when such a session exists *)
-Definition rtp_boundary (fx : fixes) (kind : N) (video : bool) (body : bytes) : res bool :=
+Definition rtp_boundary (fx : fixes) (kind : N) (body : bytes) : res bool :=
   if kind =? 1 then
-    if negb video then Ok false else            (* an audio packet starts no GOP (lal fix of C06) *)
     match NetRtpHeader.is_avc_boundary (fx_bound fx) body with
     | Panic _ => Panic s_avc_boundary | r => r end
   else if kind =? 2 then
-    if negb video then Ok false else
     match NetRtpHeader.is_hevc_boundary (fx_bound fx) body with
     | Panic _ => Panic s_hevc_boundary | r => r end
   else Ok true.
 
-Definition feed_rtp (fx : fixes) (wk : bool) (sdp : option (bool * N)) (subs : list rsub) (pkt : bool * bytes) : res (list rsub) :=
+(* only a packet of the video track can start a GOP (fix F-34: `isVideo && IsAvcBoundary(pkt)`, the classifier is
+   not even called for an audio packet); with a codec lal cannot classify every packet passes *)
+Definition rtp_gate (fx : fixes) (kind : N) (vb : bool * bytes) : res bool :=
+  if (kind =? 1) || (kind =? 2) then (if fst vb then rtp_boundary fx kind (snd vb) else Ok false) else Ok true.
+
+Definition feed_rtp (fx : fixes) (wk : bool) (sdp : option (bool * N)) (subs : list rsub) (body : bool * bytes) : res (list rsub) :=
   if negb wk then Ok subs
   else if existsb (fun r => rb_play r && rb_wait r) subs then
-    let* bd := (match sdp with Some (_, kind) => rtp_boundary fx kind (fst pkt) (snd pkt) | None => Ok false end) in
+    let* bd := (match sdp with Some (_, kind) => rtp_gate fx kind body | None => Ok false end) in
     Ok (if bd then map (fun r => if rb_play r && rb_wait r then mk_rsub true false else r) subs else subs)
   else Ok subs.
 
